@@ -297,10 +297,21 @@ def _both_engines(data, kw):
             b = u.Binner(np.asarray(data))
             b.dohist(**kw)
             plain.append(np.array(b["hist"]))
+        # weights never decide what is counted: zero, negative and positive weights give the counts and reverse indices
+        # of the unweighted call
+        n = np.asarray(data).size
+        wsets = [np.zeros(n), np.where(np.arange(n) % 2 == 0, 0.0, 1.5), np.where(np.arange(n) % 3 == 0, -1.0, 0.25)]
+        weighted = True
+        for wi, w in enumerate(wsets):
+            u.have_chist = wi != 1
+            with np.errstate(all="ignore"):
+                res = u.histogram(data, weights=w, rev=True, **kw)
+            if not (np.array_equal(res["hist"], hc) and np.array_equal(res["rev"], rc)):
+                weighted = False
     finally:
         u.have_chist = saved
     return dict(hist=hc, rev=rc, same=bool(np.array_equal(hc, hp) and np.array_equal(rc, rp) and hc.dtype == hp.dtype),
-                plain_same=bool(all(np.array_equal(p, hc) for p in plain)))
+                plain_same=bool(all(np.array_equal(p, hc) for p in plain)), weighted_same=weighted)
 
 
 contract("esutil.stat.util.histogram#statement", params={}, assumed=True, runtime_name="esutil.stat.util.histogram",
@@ -308,7 +319,8 @@ contract("esutil.stat.util.histogram#statement", params={}, assumed=True, runtim
                      "sort/limit selection are proved separately)",
          rt_ensures={"counts-and-reverse-indices-partition-the-counted-data": "hist_statement(data, kw, result['hist'], result['rev'])",
                      "engines-identical": "result['same']",
-                     "counts-without-reverse-indices-are-the-same-counts (both engines, histogram and Binner.dohist)": "result['plain_same']"},
+                     "counts-without-reverse-indices-are-the-same-counts (both engines, histogram and Binner.dohist)": "result['plain_same']",
+                     "weights-do-not-decide-what-is-counted (zero and negative weights included)": "result['weighted_same']"},
          raises=[("ValueError", "no_data", "iff")],
          props=["C05"])
 
